@@ -38,11 +38,18 @@ vf_gost_t(const uint8_t sbox[128], uint32_t a) {
 	return (r);
 }
 
-/* RFC 8891 4.2: g[k] */
+/* the substitution + rotation part of g, as a function of the 32-bit sum.  Proof jobs that
+ * establish the Feistel / key-schedule structure for an ARBITRARY round function
+ * (contracts/gost28147.h, -DVF_G_ABSTRACT_ROUND) pre-define this hook as an uninterpreted
+ * function; everywhere else it is the standard's text. */
+#ifndef VF_GOST_ROUND_T
+#define VF_GOST_ROUND_T(sbox, x)	VF_GOST_ROTL(vf_gost_t((sbox), (x)), 11)
+#endif
+
+/* RFC 8891 4.2: g[k](a) = t(a + k mod 2^32) <<< 11 */
 static inline uint32_t
 vf_gost_g(const uint8_t sbox[128], uint32_t k, uint32_t a) {
-	uint32_t t = vf_gost_t(sbox, (uint32_t)(a + k));
-	return (VF_GOST_ROTL(t, 11));
+	return (VF_GOST_ROUND_T(sbox, (uint32_t)(a + k)));
 }
 
 /* round key number r (1..32) of the encryption schedule, as an index 0..7 into the key words */
